@@ -38,6 +38,23 @@ FIRST = "gkqwyz_"
 REST = "abcdefghijklmnopqrstuvwxyz0123456789_"
 
 
+def _reserved_names():
+    """cpu names double as directives (`.z80`): a label called `z80` is substituted into the directive in pass 2
+    (`Unknown directive '39360'`).  That is a tokenizer matter, not symbol scoping, so such names are not generated."""
+    names = set()
+    try:
+        from .. import build as _b
+        txt = open(os.path.join(_b.REPO, "core", "cpu_list.cpp"), errors="replace").read()
+        names.update(m.lower() for m in re.findall(r'"([A-Za-z0-9_]+)"', txt))
+    except OSError:
+        pass
+    names.update(["z80", "w65816", "w65c832"])
+    return names
+
+
+RESERVED = _reserved_names()
+
+
 # ------------------------------------------------------------------ names
 
 def mk_name(rng, used, length=None):
@@ -56,7 +73,7 @@ def mk_name(rng, used, length=None):
             n = length
         n = min(254, n + _ // 20)
         s = rng.choice(FIRST) + "".join(rng.choice(REST) for _ in range(n - 1))
-        if s not in used:
+        if s not in used and s.lower() not in RESERVED:
             used.add(s)
             return s
     raise RuntimeError("name space exhausted")
@@ -737,7 +754,7 @@ def generate(run):
     rng = run.rng
     quick = run.tier == "quick"
     cases = []
-    nsmall = 260 if quick else 8000
+    nsmall = 1000 if quick else 8000
     for i in range(nsmall):
         cpu = rng.choice(CPUS)[0]
         nl = rng.choice([1, 2, 3, 5, 8, 13, 20, 40, 80, 150])
